@@ -4,10 +4,12 @@
 // process: the orchestrator runs this binary under `taskset -c 0-(k-1)` for several k.
 //
 // Lines (see lean/Driver/C18.lean):
-//   root <ncpu> <spec>                       -> hex root | -
-//   comp <flage> <pos> <spec>                -> <root> <0|1> <b1,b2,…|->
-//   frombranch <index> <leaf> <b1,b2,…|->    -> hex root
-//   multi <ncpu> <execerhex|->:<fullhash>,…  -> <root> <titlehex>:<start>:<count>:<hash>;…
+//
+//	root <ncpu> <spec>                       -> hex root | -
+//	comp <flage> <pos> <spec>                -> <root> <0|1> <b1,b2,…|->
+//	frombranch <index> <leaf> <b1,b2,…|->    -> hex root
+//	multi <ncpu> <execerhex|->:<fullhash>,…  -> <root> <titlehex>:<start>:<count>:<hash>;…
+//
 // spec tokens: g<seed>.<start>.<count> | x<64hex> | z | t<k> | e
 // arg 1: "all" (every section), "multi" (roots + multi-layer) or "roots" (only the root sweep).
 package main
@@ -411,7 +413,15 @@ func checkDupTail(xs *leafList, ks []int) {
 var cfg *types.Chain33Config
 
 type txList struct {
-	txs []*types.Transaction
+	txs    []*types.Transaction
+	sorted bool // main-chain txs first, then each para title in one contiguous run (what block producers build)
+}
+
+func titleOf(tx *types.Transaction) string {
+	if t, ok := types.GetParaExecTitleName(string(tx.Execer)); ok {
+		return t
+	}
+	return types.MainChainName
 }
 
 func (t *txList) line() string {
@@ -473,6 +483,21 @@ func checkMulti(t *txList) {
 	full := make([][]byte, n)
 	for i, tx := range t.txs {
 		full[i] = tx.FullHash()
+	}
+	// on a sorted list the child chains are exactly the maximal runs of one title
+	if t.sorted {
+		out.Stat("multi_sorted_lists", 1)
+		for ci, c := range childs {
+			for i := c.StartIndex; i < c.StartIndex+c.TxCount; i++ {
+				if titleOf(t.txs[i]) != c.Title {
+					out.Pred("C18|CalcMultiLayerMerkleInfo|child-is-not-a-title-run", fmt.Sprintf("n=%d child=%d tx=%d", n, ci, i))
+					break
+				}
+			}
+			if ci > 0 && childs[ci-1].Title == c.Title {
+				out.Pred("C18|CalcMultiLayerMerkleInfo|child-is-not-a-title-run", fmt.Sprintf("n=%d child=%d same title as previous", n, ci))
+			}
+		}
 	}
 	// every child root and its proof verify; every tx proof verifies (the two-level proof of getMultiLayerProofs)
 	for ci, c := range childs {
@@ -538,7 +563,7 @@ func paraExec(title int, r *gen.Rand) string {
 // genTxList: shape 0 = sorted (main first, then each para title contiguous), 1 = only main,
 // 2 = only one para title, 3 = interleaved at random, 4 = many titles (one tx each), 5 = odd execers mixed in.
 func genTxList(r *gen.Rand, shape, n int) *txList {
-	t := &txList{}
+	t := &txList{sorted: shape == 0 || shape == 1 || shape == 2 || shape == 4}
 	switch shape {
 	case 1:
 		for i := 0; i < n; i++ {
@@ -596,12 +621,9 @@ func genTxList(r *gen.Rand, shape, n int) *txList {
 
 func nSet(r *gen.Rand) []int {
 	set := map[int]bool{}
-	if gen.Thorough() {
-		for n := 0; n <= 4096; n++ {
-			set[n] = true
-		}
-	} else {
-		for n := 0; n <= 100; n++ {
+	{
+		// every n up to the tier's limit (thorough: 4096, scaled down by VERIF_SCALE), then the stratified set
+		for n := 0; n <= gen.Scale(100, 4096) && n <= 4096; n++ {
 			set[n] = true
 		}
 		add := func(n int) {
